@@ -529,8 +529,11 @@ class TimeArray(np.ndarray, TimeInterface):
     def convert_unit(self, time_unit):
         """Convert from one time unit to another in place"""
 
+        # Look the factor up first: an invalid unit is refused (KeyError /
+        # TypeError) before anything is written, the object stays as it was
+        conversion_factor = time_unit_conversion[time_unit]
         self.time_unit = time_unit
-        self._conversion_factor = time_unit_conversion[time_unit]
+        self._conversion_factor = conversion_factor
 
     def __div__(self, d):
         """Division by another time object eliminates units """
